@@ -90,7 +90,7 @@ def pandas_runner(case):
 
     def run(q):
         df = pandas.DataFrame([list(r) for r in case['records']], columns=case['names'])
-        res = rbql.query_pandas_dataframe(q, df)
+        res = rbql.query_pandas_dataframe(q, df, normalize_column_names=case.get('normalize', True))
         return {'rows': norm(res.values.tolist()), 'header': [str(c) for c in res.columns]}
     return run
 
